@@ -488,6 +488,7 @@ func TestC02_MultiFault(t *testing.T) {
 				}
 				m.doReorg(st, s, head-uint64(depth)+1, txs, false)
 			case a == 3:
+				m.reconfigure()
 				if err := w.Restart(); err != nil {
 					rt.Fatalf("VERIF-INCONCLUSIVE restart: %v", err)
 				}
